@@ -91,9 +91,11 @@ theorem ref_atom {n : Nat} (ih : RefAt n) (neg : Bool) (ts : List Tok) :
               exact ref_closeParen _ _ _ _ _
           · simp only [h3, if_false]; rfl
       · simp only [h2, if_false]
-        cases leafType c with
-        | error s => trivial
-        | ok vt => rfl
+        split
+        · cases leafType c with
+          | error s => trivial
+          | ok vt => rfl
+        · rfl
 
 theorem ref_factor {n : Nat} (ih : RefAt n) (ts : List Tok) :
     Ref (tFactor (n+1) ts) (parseFactor (n+1) ts) := by
@@ -319,33 +321,7 @@ theorem parseTyped_ne_fuel (target : VarT) (ts : List Tok) : parseTyped target t
         · exact fun h => TParsed.noConfusion h
         · split <;> exact fun h => TParsed.noConfusion h
 
-/-! ### the type of a chain -/
-
-/-- **The top node of a `* /` or `+ -` chain with three or more operands carries the coerced type
-of its last two operands only**: the first operand and every operand before the second-to-last
-have no influence (as long as no `UDQ::coerce` throws). -/
-theorem chain_type_last_two (t0 : VarT) (x y : Head × Ast × VarT) (prev : TAcc) (v : VarT)
-    (h : buildT t0 (x :: y :: prev) = some v) : updateType x.2.2 y.2.2 = some v := by
-  obtain ⟨hx, ax, tx⟩ := x
-  obtain ⟨hy, ay, ty⟩ := y
-  simp only [buildT] at h
-  cases hb : buildT t0 prev with
-  | none => rw [hb] at h; cases h
-  | some w =>
-    rw [hb] at h
-    simp only [] at h
-    cases hu : updateType ty (nodeVt t0 prev) with
-    | none => rw [hu] at h; cases h
-    | some u => rw [hu] at h; simpa [nodeVt] using h
-
-theorem chain_type_ignores_earlier (t0 t0' : VarT) (x y : Head × Ast × VarT) (prev prev' : TAcc) (v v' : VarT)
-    (h : buildT t0 (x :: y :: prev) = some v) (h' : buildT t0' (x :: y :: prev') = some v') : v = v' := by
-  have a := chain_type_last_two t0 x y prev v h
-  have b := chain_type_last_two t0' x y prev' v' h'
-  rw [a] at b
-  exact Option.some.inj b
-
-/-! ### the repaired chain: a restricted (well, group, segment, …) operand anywhere decides -/
+/-! ### the type of a chain: a restricted (well, group, segment, …) operand anywhere decides -/
 
 def coerceTable : Bool :=
   VarT.all.all fun a => VarT.all.all fun b =>
@@ -385,24 +361,24 @@ theorem updateType_restricted (cur arg v : VarT) (h : updateType cur arg = some 
     rw [h] at hs
     exact hs.1
 
-/-- With the chain folded from the left (`buildFix`, the candidate patch) the top type of a chain
+/-- With the chain folded from the left (`buildT`, the candidate patch) the top type of a chain
 is the type of ANY restricted operand in it — in particular `WOPR + 1 + 2` is a well quantity
 whatever the position of `WOPR`. -/
-theorem buildFix_restricted_wins (t0 : VarT) : ∀ (acc : TAcc) (v : VarT), buildFix t0 acc = some v →
+theorem buildT_restricted_wins (t0 : VarT) : ∀ (acc : TAcc) (v : VarT), buildT t0 acc = some v →
     ∀ t, (t = t0 ∨ t ∈ acc.map (·.2.2)) → isNoMix t = true → v = t := by
   intro acc
   induction acc with
   | nil =>
     intro v h t ht _
-    simp only [buildFix, Option.some.injEq] at h
+    simp only [buildT, Option.some.injEq] at h
     rcases ht with ht | ht
     · rw [ht, h]
     · cases ht
   | cons x prev ih =>
     intro v h t ht hn
     obtain ⟨hx, ax, tx⟩ := x
-    simp only [buildFix] at h
-    cases hb : buildFix t0 prev with
+    simp only [buildT] at h
+    cases hb : buildT t0 prev with
     | none => rw [hb] at h; cases h
     | some below =>
       rw [hb] at h
